@@ -314,6 +314,15 @@ func (s *sim) checkTermination(idle bool) {
 
 // noteRefusal records that a node's signer refused to sign at a height.
 func (s *sim) noteRefusal(n *simNode, h int64) {
+	n.mu.Lock()
+	starting := n.starting
+	n.mu.Unlock()
+	if starting {
+		// WAL replay re-derives the votes of earlier rounds and the signer refuses them as
+		// regressions; the votes themselves are in the WAL and are replayed, nobody is muted
+		s.env.Count("probe.sign_refused_during_replay")
+		return
+	}
 	if s.refused == nil {
 		s.refused = map[int]map[int64]bool{}
 	}
